@@ -45,6 +45,7 @@ ARRANGEMENTS = {
 }
 TYPES_P = [("u32", False), ("Option<u32>", True), ("Option<Option<u32>>", True), ("Box<Option<u32>>", True), ("Option<Box<u32>>", True),
            ("&'static Option<String>", True), ("Arc<Option<Foo>>", True), ("Vec<Option<u32>>", False), ("std::option::Option<u32>", True),
+           ("core::option::Option<u32>", True), ("::core::option::Option<String>", True), ("option::Option<u32>", True), ("alloc::boxed::Box<core::option::Option<u8>>", True),
            ("Cow<'static, Option<u8>>", True), ("HashMap<String, Option<u32>>", False), ("Mutex<RefCell<Option<T>>>", True), ("Foo<Option<u32>>", False)]
 
 
